@@ -456,7 +456,7 @@ func (w *adwire) violate(key, what string, ops []string, exp, obs string) {
 func (w *adwire) addCase(label string, ops, real []string) {
 	for _, x := range real {
 		if x == "err panic" {
-			// a negative length prefix reaches make([]byte, n) in GetString: C13's finding (the typed-layer
+			// a receiver panicked (before /repo 0d73d42 a negative length prefix reached make([]byte, n) in GetString; the typed-layer
 			// model already describes the fixed behaviour); reported under C13, not compared here
 			w.c.Count("c13-panic-cases-not-compared")
 			if w.perK["C13"]++; w.perK["C13"] <= 2 {
@@ -903,7 +903,7 @@ func (w *adwire) damaged(idx int) {
 			count -= int64(1 + c.Rng.Intn(3))
 			faults = append(faults, "count-")
 		case 2:
-			count = []int64{-1, -9223372036854775808, 0, 40, 300}[c.Rng.Intn(5)]
+			count = []int64{-1, -9223372036854775808, 0, 40, 300, 1 << 31, 9223372036854775807}[c.Rng.Intn(7)]
 			faults = append(faults, "count-odd")
 		case 3:
 			// a stray marker as an expression, followed by whatever comes next
@@ -927,13 +927,18 @@ func (w *adwire) damaged(idx int) {
 			faults = append(faults, "bad-expr")
 		case 7:
 			if enc && len(body) > 0 {
-				// length prefix off by a little (never negative: that is C13's panic)
+				// length prefix off by a little, or negative (rejected by GetString since /repo 0d73d42, a no-op for discard)
 				p := c.Rng.Intn(len(body))
 				l := binary.BigEndian.Uint64(body[p][:8])
 				d := uint64(c.Rng.Intn(5))
-				if c.Rng.Intn(2) == 0 && l >= d {
-					l -= d
-				} else {
+				switch c.Rng.Intn(5) {
+				case 0:
+					l = uint64(int64(-1 - c.Rng.Intn(5)))
+				case 1, 2:
+					if l >= d {
+						l -= d
+					}
+				default:
 					l += d
 				}
 				binary.BigEndian.PutUint64(body[p][:8], l)
@@ -962,8 +967,10 @@ func (w *adwire) damaged(idx int) {
 			faults = append(faults, "truncate")
 		}
 	}
-	if count > 400 { // a huge count after end-of-message makes the plaintext receivers spin: that is C13's finding, not exercised here
-		count = 400
+	// (a huge count no longer spins: the raw and the skipping receiver stop at the end of the message since
+	// /repo e91c289, the parsing receiver on the first "" that does not parse)
+	if (count > 400 && count < 1<<31) || count < -9223372036854775807+400 && count != -9223372036854775808 {
+		count = 400 // only the arithmetic of count+/count- on the odd values; keeps the in-between range small
 	}
 	var all []byte
 	all = append(all, be(count)...)
